@@ -118,6 +118,8 @@ class Family:
         add("nodb", "reg", "sd" if isa == "x86" else "ds", in_isa=False)
         add("nodb1", "reg", "s", in_isa=False)
         add("zi", "reg", "sb" if isa == "x86" else "bs", zi=True, hidden=(("ZF", False, True),))
+        # three-operand zero idiom: only three equal operands break the dependency
+        add("zi3", "reg", "ssd" if isa == "x86" else "dss", zi=True)
         add("fw", "reg", "sd" if isa == "x86" else "ds", hidden=(("ZF", False, True),))
         add("fr", "reg", "sd" if isa == "x86" else "ds", hidden=(("ZF", True, False),))
         add("fc", "reg", "ss", hidden=(("CF", True, True),))
